@@ -50,9 +50,15 @@ def _offset(env, kind):
     return 1 if kind == 'gridlike' or isinstance(env, Env.DiscreteWorld) else 0
 
 
+class HomeComponent(PositionComponent):
+    """a user component derived from PositionComponent (say, the agent's nest): NOT the agent's position"""
+
+
 def _place(m, env, name, x, y, z):
     """a resident at an arbitrary position, written directly (I8 is assumed by the caller's precondition)"""
     a = Agent(name, m)
+    if hx.P.get('position_subclass'):
+        a.add_component(HomeComponent(a, m, 1, 1, 0))       # attached first
     a.add_component(PositionComponent(a, m, x, y, z))
     env.agents[a.id] = a
     return a
@@ -130,7 +136,7 @@ def move_to_int(w: int, h: int, d: int, x: int, y: int, z: int, nx: int, ny: int
     hx.begin()
     kind = hx.P['world']
     m = Model(logger=NULL_LOGGER)
-    env = _world(m, kind, w, h, d, False)
+    env = _world(m, kind, w, h, d, hx.P.get('wrap', False))     # (a toroidal world bounds absolute moves like any other)
     off = _offset(env, kind)
     if not _inside(env, off, x, y, z):
         return hx.end(True)
@@ -182,10 +188,12 @@ def place_int(w: int, h: int, d: int, x: int, y: int, z: int, x2: int, y2: int) 
     hx.begin()
     kind = hx.P['world']
     m = Model(logger=NULL_LOGGER)
-    env = _world(m, kind, w, h, d, False)
+    env = _world(m, kind, w, h, d, hx.P.get('wrap', False))
     off = _offset(env, kind)
     from ECAgent.Core import Environment
     a = Environment(m, id="a") if hx.P.get('nested') else Agent("a", m)     # environments are agents too (empty here)
+    if hx.P.get('position_subclass'):
+        a.add_component(HomeComponent(a, m, 1, 1, 0))      # a user component derived from PositionComponent, attached before joining
     alias = hx.P.get('alias', False)
     inside = _inside(env, off, x, y, z)
     raised = None
@@ -354,12 +362,15 @@ def obligations(tier):
         real = [("line_wrap", True), ("grid", False), ("discrete_flat", False), ("discrete_nox", False), ("discrete_nox_wrap", True)]
     k = 3 if tier == "quick" else 4
     obs = [
-        X("move_int", move_int, parts=[{"world": w, "wrap": wr} for w, wr in sym + real], labels=("leaves_range", "stays_in_range"),
+        X("move_int", move_int, parts=[{"world": w, "wrap": wr} for w, wr in sym + real] + [{"world": "space", "wrap": False, "position_subclass": True}],
+          labels=("leaves_range", "stays_in_range"),
           timeout=1200, encoded=enc, bounds={"extents,position,delta": "all ints"}),
-        X("move_to_int", move_to_int, parts=[{"world": w} for w in ["space", "gridlike"] + [r for r, wr in real if not wr]],
+        X("move_to_int", move_to_int, parts=[{"world": w} for w in ["space", "gridlike"] + [r for r, wr in real if not wr]] +
+          [{"world": w, "wrap": True} for w in ["space", "gridlike"] + [r for r, wr in real if wr]] + [{"world": "space", "position_subclass": True}],
           labels=("accepted", "rejected"), timeout=1200, encoded=enc),
         X("place_int", place_int, parts=[{"world": w} for w in ["space", "gridlike"] + [r for r, wr in real if not wr]] +
-          [{"world": "space", "nested": True}, {"world": "grid", "nested": True}, {"world": "space", "alias": True}, {"world": "grid", "alias": True}],
+          [{"world": "space", "nested": True}, {"world": "grid", "nested": True}, {"world": "space", "alias": True}, {"world": "grid", "alias": True}] +
+          [{"world": w, "wrap": True} for w in ("space", "gridlike")] + [{"world": "space", "position_subclass": True}],
           labels=("accepted", "rejected"), timeout=1200, encoded=enc),
         X("no_position", no_position, parts=[{"world": "space"}, {"world": "grid"}], labels=("checked",), timeout=120, encoded=enc),
         X("history", history, parts=_hist_parts(k, [("space", False), ("grid", False)] + ([("gridlike", True)] if tier != "quick" else [])),
